@@ -136,8 +136,15 @@ def mutate(seq):
 class Thing:
     def __init__(self):
         self.v = 1
+# the student's own globals with the names of builtins the sandbox replaces: they shadow the builtins, as in Python
+exit = 5
+compile = 'mine'
+def input(prompt=''):
+    return 'typed'
+def shadowed(v):
+    return (exit, compile, input('?'), v)
 """
-FNAMES = ['ident', 'double', 'first', 'total', 'boom', 'shout', 'rec', 'typename', 'keys', 'isnan', 'mutate']
+FNAMES = ['ident', 'double', 'first', 'total', 'boom', 'shout', 'rec', 'typename', 'keys', 'isnan', 'mutate', 'shadowed']
 ARGS = [0, 3, -2, 2.5, float('inf'), float('-inf'), float('nan'), True, None, 'ab', "it's", 'q"uote', 'new\nline', 'back\\slash',
         [1, 2], [], (1, 2), {'a': 1}, {1, 2}, [[1], {'k': (2, 3)}], list(range(300)), {'x': float('inf')}, [float('nan')],
         int, len, '']
@@ -259,6 +266,10 @@ def make_programs(max_len, pool, STM=STM):
         cmds.contextualize_report(Submission(files=files, main_file='answer.py', main_code=code))
         sb = sb_cmds.get_sandbox()
         sb.set_input(list(queue))
+        # the sandbox may be configured to run everything under a time limit (as the environments do): same behaviour
+        if ctx.choose(2, 'configured-threaded'):
+            sb.threaded = True
+            sb.allowed_time = 20
         ctx.step('run')
         try:
             sb.run()
